@@ -70,6 +70,35 @@ func collect[T any](call func(chan<- T) error, render func(T) string) (a Ans) {
 	return a
 }
 
+// collectCancel runs a channel lookup whose caller takes k elements, cancels its context and stops receiving.
+func collectCancel[T any](k int, call func(context.Context, chan<- T) error, render func(T) string) (a Ans) {
+	ctx, cancel := context.WithCancel(withTid(-1))
+	defer cancel()
+	c := make(chan T)
+	done := make(chan struct{})
+	var err error
+	go func() {
+		defer close(done)
+		err = call(ctx, c)
+	}()
+	a.Elems = []string{}
+	closed := false
+	for i := 0; i < k; i++ {
+		x, ok := <-c
+		if !ok {
+			closed = true
+			break
+		}
+		a.Elems = append(a.Elems, render(x))
+	}
+	if !closed {
+		cancel()
+	}
+	<-done
+	a.Err = err != nil
+	return a
+}
+
 // Query is a lookup request over concrete values.
 type Query struct {
 	Op string
@@ -111,6 +140,46 @@ func (q *Query) descLo(l *storage.LookupOptions) QDesc {
 func (q *Query) run(ctx context.Context, g storage.Graph) Ans {
 	lo := q.Lo // fresh copy
 	return q.runLo(ctx, g, &lo)
+}
+
+// runCancel issues the request with a context that the caller cancels after taking k elements.
+func (q *Query) runCancel(g storage.Graph, l *storage.LookupOptions, k int) Ans {
+	switch q.Op {
+	case "Objects":
+		return collectCancel(k, func(ctx context.Context, c chan<- *triple.Object) error { return g.Objects(ctx, q.S, q.P, l, c) }, rObj)
+	case "Subjects":
+		return collectCancel(k, func(ctx context.Context, c chan<- *node.Node) error { return g.Subjects(ctx, q.P, q.O, l, c) }, rNode)
+	case "PredicatesForSubject":
+		return collectCancel(k, func(ctx context.Context, c chan<- *predicate.Predicate) error {
+			return g.PredicatesForSubject(ctx, q.S, l, c)
+		}, rPred)
+	case "PredicatesForObject":
+		return collectCancel(k, func(ctx context.Context, c chan<- *predicate.Predicate) error {
+			return g.PredicatesForObject(ctx, q.O, l, c)
+		}, rPred)
+	case "PredicatesForSubjectAndObject":
+		return collectCancel(k, func(ctx context.Context, c chan<- *predicate.Predicate) error {
+			return g.PredicatesForSubjectAndObject(ctx, q.S, q.O, l, c)
+		}, rPred)
+	case "TriplesForSubject":
+		return collectCancel(k, func(ctx context.Context, c chan<- *triple.Triple) error { return g.TriplesForSubject(ctx, q.S, l, c) }, rTrip)
+	case "TriplesForPredicate":
+		return collectCancel(k, func(ctx context.Context, c chan<- *triple.Triple) error { return g.TriplesForPredicate(ctx, q.P, l, c) }, rTrip)
+	case "TriplesForObject":
+		return collectCancel(k, func(ctx context.Context, c chan<- *triple.Triple) error { return g.TriplesForObject(ctx, q.O, l, c) }, rTrip)
+	case "TriplesForSubjectAndPredicate":
+		return collectCancel(k, func(ctx context.Context, c chan<- *triple.Triple) error {
+			return g.TriplesForSubjectAndPredicate(ctx, q.S, q.P, l, c)
+		}, rTrip)
+	case "TriplesForPredicateAndObject":
+		return collectCancel(k, func(ctx context.Context, c chan<- *triple.Triple) error {
+			return g.TriplesForPredicateAndObject(ctx, q.P, q.O, l, c)
+		}, rTrip)
+	case "Triples":
+		return collectCancel(k, func(ctx context.Context, c chan<- *triple.Triple) error { return g.Triples(ctx, l, c) }, rTrip)
+	}
+	// Exist does not look at the context
+	return q.runLo(withTid(-1), g, l)
 }
 
 // runLo issues the request with the caller's own options value (callers keep and re-use option values, change their
@@ -441,14 +510,17 @@ type SeqOp struct {
 	Plain   *Ans      `json:"plain,omitempty"`
 	Fwd     []InnerEv `json:"fwd"`
 	LoUse   string    `json:"lo_use,omitempty"` // how the options value of this call came about
+	Cancel  *int      `json:"cancel,omitempty"` // the caller cancelled its context after taking this many elements
+	Leak    bool      `json:"leak,omitempty"`   // a forwarded lookup was still blocked after the memoizer had returned
 }
 
 type SeqCase struct {
-	Kind   string  `json:"kind"`
-	ID     int     `json:"id"`
-	Seed   int64   `json:"seed"`
-	Faults bool    `json:"faults"`
-	Ops    []SeqOp `json:"ops"`
+	Kind    string  `json:"kind"`
+	ID      int     `json:"id"`
+	Seed    int64   `json:"seed"`
+	Faults  bool    `json:"faults"`
+	Cancels bool    `json:"cancels"`
+	Ops     []SeqOp `json:"ops"`
 }
 
 func tstrings(ts []*triple.Triple) []string {
@@ -459,7 +531,7 @@ func tstrings(ts []*triple.Triple) []string {
 	return out
 }
 
-func genSeq(id int, seed int64, faults bool) SeqCase {
+func genSeq(id int, seed int64, faults, cancels bool) SeqCase {
 	rng := rand.New(rand.NewSource(seed))
 	v := newVocab(rng)
 	ctx := withTid(-1)
@@ -471,13 +543,19 @@ func genSeq(id int, seed int64, faults bool) SeqCase {
 		innerMem, plain = memory.NewStore(), memory.NewStore()
 	} else {
 		pi, pp = getStore(), getStore()
-		defer putStore(pi)
-		defer putStore(pp)
+		defer func() {
+			if pi != nil { // nil: a lookup was left blocked inside it
+				putStore(pi)
+			}
+			putStore(pp)
+		}()
 		innerMem, plain = pi.st, pp.st
 	}
 	inner := &gStore{in: innerMem, c: c}
 	memo := memoization.New(inner)
-	cs := SeqCase{Kind: "seq", ID: id, Seed: seed, Faults: faults}
+	cs := SeqCase{Kind: "seq", ID: id, Seed: seed, Faults: faults, Cancels: cancels}
+	var again *Query // after a cancelled lookup: the same lookup with a live context
+	againH := 0
 
 	ngraphs := 1 + rng.Intn(4)/3
 	gnames := []string{"?a", "?b"}
@@ -586,6 +664,8 @@ func genSeq(id int, seed int64, faults bool) SeqCase {
 			h := rng.Intn(len(handles))
 			var q *Query
 			switch x := rng.Intn(10); {
+			case again != nil && x < 8:
+				q, h, again = again, againH, nil
 			case len(pool) > 0 && x < 5:
 				q = pool[rng.Intn(len(pool))] // repeat: cache hit candidates
 			case len(pool) > 0 && x < 6:
@@ -643,6 +723,37 @@ func genSeq(id int, seed int64, faults bool) SeqCase {
 			}
 			d := q.descLo(ml)
 			lostr := ml.String()
+			if cancels && q.Op != "Exist" && rng.Intn(100) < 22 {
+				// the caller takes k elements, cancels its context and stops receiving
+				k := []int{0, 1, 1, 2, 3, 50}[rng.Intn(6)]
+				if rng.Intn(2) == 0 {
+					// a listing: usually several results, so that the cancellation falls inside the stream
+					q2 := *q
+					q2.Op = "Triples"
+					q2.Lo = storage.LookupOptions{MaxElements: []int{0, 2, 3}[rng.Intn(3)]}
+					q = &q2
+					lm2, lp2 := q.Lo, q.Lo
+					ml, pl = &lm2, &lp2
+					d, lostr, how = q.descLo(ml), ml.String(), "fresh"
+				}
+				ma := q.runCancel(handles[h], ml, k)
+				leak := !c.settled(400 * time.Millisecond)
+				fwd := c.takeLog()
+				pa := q.runLo(ctx, plainG[hgraph[h]], pl)
+				if leak {
+					// the forwarded lookup never returns: what it would deliver is what the plain store delivers now
+					fwd = append(fwd, InnerEv{Tid: -1, G: gnames[hgraph[h]], Kind: "read", Q: &d, A: pa, Fault: "left-blocked"})
+				}
+				cs.Ops = append(cs.Ops, SeqOp{H: h, K: "read", G: hgraph[h], Q: &d, LoStr: lostr, Memo: &ma, Plain: &pa, Fwd: fwd,
+					LoUse: how, Cancel: &k, Leak: leak})
+				if leak {
+					// the wrapped graph keeps its read lock for ever: the history ends here and the store is not re-used
+					pi = nil
+					return cs
+				}
+				again, againH = q, h
+				continue
+			}
 			ma := q.runLo(ctx, handles[h], ml)
 			fwd := c.takeLog()
 			delete(c.readFaults, c.nReads) // a fault planned for a read that was served from the cache is dropped
@@ -683,6 +794,8 @@ type TOp struct {
 	Max int    `json:"max"`
 	Off int    `json:"off"`
 	ID  int    `json:"id"`
+	// Cancel: the caller takes this many elements, cancels its context and stops receiving (list only)
+	Cancel *int `json:"cancel,omitempty"`
 }
 
 // TAns is an answer over numbered triples.
@@ -717,6 +830,11 @@ func tinyExec(ctx context.Context, g storage.Graph, o *TOp) TAns {
 	case "remove":
 		return TAns{List: []int{}, Err: g.RemoveTriples(ctx, tinyTriples(o.Ids)) != nil}
 	}
+	if o.Cancel != nil && o.K == "list" {
+		q := o.query()
+		lo := q.Lo
+		return tinyAns(q.runCancel(g, &lo, *o.Cancel))
+	}
 	return tinyAns(o.query().run(ctx, g))
 }
 
@@ -735,6 +853,10 @@ type TinyResult struct {
 	Memo  []TAns   `json:"memo"`
 	Plain []TAns   `json:"plain"`
 	Fwd   []int    `json:"fwd"` // number of calls that reached the wrapped store, per operation
+	// LeakAt: index of the operation after which a forwarded lookup was still blocked (-1 none); the history stops there
+	// and WriteBlocked says whether an AddTriples through the wrapper then failed to return within two seconds.
+	LeakAt       int  `json:"leak_at"`
+	WriteBlocked bool `json:"write_blocked"`
 }
 
 func runTiny(h TinyHist) TinyResult {
@@ -754,7 +876,7 @@ func runTiny(h TinyHist) TinyResult {
 		must(0, raw.AddTriples(ctx, tinyTriples(h.Init)))
 		must(0, pg.AddTriples(ctx, tinyTriples(h.Init)))
 	}
-	res := TinyResult{Kind: "tiny", Hist: h}
+	res := TinyResult{Kind: "tiny", Hist: h, LeakAt: -1}
 	var handles []storage.Graph
 	for i := range h.Ops {
 		o := &h.Ops[i]
@@ -766,8 +888,25 @@ func runTiny(h TinyHist) TinyResult {
 			continue
 		}
 		res.Memo = append(res.Memo, tinyExec(ctx, handles[o.H], o))
+		leak := !c.settled(500 * time.Millisecond)
 		res.Fwd = append(res.Fwd, len(c.takeLog()))
-		res.Plain = append(res.Plain, tinyExec(ctx, pg, o))
+		po := *o
+		po.Cancel = nil
+		res.Plain = append(res.Plain, tinyExec(ctx, pg, &po))
+		if leak {
+			res.LeakAt = i
+			done := make(chan struct{})
+			go func() {
+				handles[o.H].AddTriples(ctx, tinyTriples([]int{99}))
+				close(done)
+			}()
+			select {
+			case <-done:
+			case <-time.After(2 * time.Second):
+				res.WriteBlocked = true
+			}
+			break
+		}
 	}
 	return res
 }
@@ -1051,6 +1190,7 @@ func main() {
 	n := flag.Int("n", 100, "number of histories (seq)")
 	seed := flag.Int64("seed", 1, "PRNG seed")
 	faults := flag.Bool("faults", false, "seq: inject failures of the wrapped store")
+	cancels := flag.Bool("cancels", false, "seq: some lookups are cancelled by the caller after k elements")
 	budget := flag.Int("budget", 200000, "explore: maximum number of schedules per scenario")
 	prof := flag.String("cpuprofile", "", "write a CPU profile")
 	flag.Parse()
@@ -1067,7 +1207,7 @@ func main() {
 	case "seq":
 		master := rand.New(rand.NewSource(*seed))
 		for i := 0; i < *n; i++ {
-			enc.Encode(genSeq(i, master.Int63(), *faults))
+			enc.Encode(genSeq(i, master.Int63(), *faults, *cancels))
 		}
 	case "tiny":
 		sc := bufio.NewScanner(os.Stdin)
